@@ -64,7 +64,12 @@ def one_step(c: Dict[str, Any]) -> Dict[str, Any]:
     params: Any = {"plain": lp, "group_after": [{"params": cp + lp}], "group_before": [{"params": lp + cp}],
                    "two_groups": [{"params": cp}, {"params": lp}], "tensor_lr_group": [{"params": cp + lp}]}[form]
     lr: Any = torch.tensor(c["eta"], dtype=torch.float64) if form == "tensor_lr_group" else c["eta"]
-    opt = getattr(O, c["opt"])(params, lr=lr, eps=0.0, weight_decay=0.0)
+    okw: Dict[str, Any] = {}
+    if c.get("allow"):      # a model mixing unit-scaled layers with plain torch parameters: the flag only switches off the tag check
+        plain = torch.nn.Parameter(torch.zeros(3, dtype=torch.float64))
+        params = (list(params) + [plain]) if form == "plain" else (params + [{"params": [plain]}])
+        okw["allow_non_unit_scaling_params"] = True
+    opt = getattr(O, c["opt"])(params, lr=lr, eps=0.0, weight_decay=0.0, **okw)
     out0 = layer(x)
     up = torch.randn(out0.shape, generator=g, dtype=torch.float64)
     up = torch.where(up.abs() < 1e-3, torch.ones_like(up), up)  # no zero entries
@@ -99,7 +104,7 @@ def gen_cases(rng: random.Random, n: int) -> List[Dict[str, Any]]:
                     "eta": 10 ** rng.uniform(-4, 0), "opt": rng.choice(["Adam", "AdamW"]),
                     "constraint": rng.choice(["default", "none"]), "seed": rng.randrange(1 << 30),
                     "form": rng.choice(["plain", "plain", "group_after", "group_before", "two_groups", "tensor_lr_group"]),
-                    "container": rng.choice(["seq_args", "seq_dict", "list", "generator"])})
+                    "container": rng.choice(["seq_args", "seq_dict", "list", "generator"]), "allow": rng.random() < 0.3})
     return out
 
 
@@ -107,7 +112,7 @@ def judge(rep: Report, c: Dict[str, Any], e: Dict[str, Any], obs: Dict[str, Any]
     f2 = Fraction(e["f2"][0], e["f2"][1])
     want = c["eta"] * math.sqrt(float(f2))
     worst = max(abs(a - want) / want for a in obs["abs"])
-    label = f"[{c.get('form', 'plain')}, depth via {c.get('container', 'seq_args')}] {c['layer']} fan_in={c['fanIn']} fan_out={c['fanOut']} k={c['k']} groups={c.get('groups', 1)} depth={c['depth']} eta={c['eta']:.4g} {c['opt']} constraint={c['constraint']}"
+    label = f"[{c.get('form', 'plain')}{', allow_non_unit_scaling_params' if c.get('allow') else ''}, depth via {c.get('container', 'seq_args')}] {c['layer']} fan_in={c['fanIn']} fan_out={c['fanOut']} k={c['k']} groups={c.get('groups', 1)} depth={c['depth']} eta={c['eta']:.4g} {c['opt']} constraint={c['constraint']}"
     if worst > 1e-9 or not obs["sign_ok"]:
         rep.violation(
             f"output moved by {obs['abs'][0] / c['eta']:.9g} x eta (worst rel. deviation {worst:.3g}); spec UpdateSize2 = {f2} i.e. {math.sqrt(float(f2)):.9g} x eta for {label}",
